@@ -711,7 +711,7 @@ void process_conn(Structure& st, const std::vector<std::string>& conn_records) {
       }
       auto get_elem = [&](const char* name, const AtomAddress& ad) {
         if (element_from_padded_name_is_ambiguous(name)) {
-          const_CRA cra = st.first_model().find_cra(ad);
+          const_CRA cra = st.first_model().find_cra(ad, true);
           if (cra.atom)
             return cra.atom->element.elem;
         }
